@@ -35,8 +35,8 @@ REAL_VS_STUB = {
     "stub": ["the observed system: simkit.world (seeded droplet world + camera with faults)"],
 }
 TIERS = {
-    "quick": {"runs": 40000, "budget_s": 45, "chunk": 250, "det_pairs": 64, "fresh": 8},
-    "thorough": {"runs": 400000, "budget_s": 900, "chunk": 400, "det_pairs": 512, "fresh": 32},
+    "quick": {"runs": 50000, "budget_s": 50, "chunk": 250, "det_pairs": 64, "fresh": 8},
+    "thorough": {"runs": 700000, "budget_s": 900, "chunk": 500, "det_pairs": 512, "fresh": 32},
 }
 
 
@@ -50,8 +50,14 @@ def gen_configs(rng, box, n):
         out.append(cfg)
     return out
 
+LATTICE_FRAMES = {"quick": 3, "thorough": 4}
+
 
 def generate(streams: Streams, tier: str, index: int) -> dict:
+    nf = LATTICE_FRAMES[tier]
+    if index < world.lattice_size(nf):
+        # exhaustive part: every history of the small 1D lattice space, every configuration
+        return {"history": world.lattice_history(index, nf), "configs": list(world.LATTICE_CONFIGS)}
     rng = streams["workload"]
     allow_overlap = rng.random() < 0.3
     hist = world.random_history(rng, allow_overlap=allow_overlap,
